@@ -51,6 +51,10 @@ pub struct C14Scenario {
     /// widened the way a loaded machine would
     #[serde(default)]
     pub listen_delay_us: Option<u32>,
+    /// while the holder is past the lock, something else connects to the lock port and goes away again
+    /// (a port scanner, a health check, a mistyped URL)
+    #[serde(default)]
+    pub stray_connection: bool,
 }
 
 pub struct C14;
@@ -70,7 +74,10 @@ fn kind_args(k: Kind, spec: &WorldSpec) -> Vec<String> {
 
 fn gen_c14(seed: u64, idx: usize, _tier: Tier) -> C14Scenario {
     let mut rng = Rng::new(scenario_seed(seed, "C14", idx));
-    let spec = flat_world(&mut rng, 2, 1, 3, 0, true);
+    let mut spec = flat_world(&mut rng, 2, 1, 3, 0, true);
+    if rng.chance(1, 4) {
+        spec.lock_host = Some("localhost".into());
+    }
     let kinds = [Kind::Run, Kind::CpUpdate, Kind::CpDelete, Kind::OutDelete];
     let first = *rng.pick(&kinds);
     let hold_at_child = first == Kind::Run && rng.chance(1, 2);
@@ -93,6 +100,7 @@ fn gen_c14(seed: u64, idx: usize, _tier: Tier) -> C14Scenario {
         rand_seed: rng.next_u64() % 1_000_000,
         nested: if hold_at_child && rng.chance(1, 2) { Some(*rng.pick(&kinds)) } else { None },
         listen_delay_us: if rng.chance(1, 3) { Some(*rng.pick(&[2_000u32, 20_000, 100_000])) } else { None },
+        stray_connection: rng.chance(1, 3),
     }
 }
 
@@ -153,7 +161,17 @@ fn is_lock_error(x: &crate::ctl::ProcExit) -> bool {
 }
 
 fn exec_c14(sc: &C14Scenario) -> Outcome {
-    let mut w = match World::create(&sc.spec, true) {
+    let mut spec = sc.spec.clone();
+    if spec.lock_host.as_deref() == Some("localhost") {
+        // only where the name denotes exactly one address: with several, binding "the first address that
+        // works" is how the name itself is specified to behave, and two holders could be legitimate
+        use std::net::ToSocketAddrs;
+        let addrs: std::collections::BTreeSet<std::net::IpAddr> = ("localhost", 1u16).to_socket_addrs().map(|a| a.map(|x| x.ip()).collect()).unwrap_or_default();
+        if addrs.len() != 1 || !addrs.iter().all(|a| a.is_loopback() && a.is_ipv4()) {
+            spec.lock_host = None;
+        }
+    }
+    let mut w = match World::create(&spec, true) {
         Ok(w) => w,
         Err(e) => return Outcome::skip(&format!("world: {}", e)),
     };
@@ -232,6 +250,16 @@ fn exec_c14(sc: &C14Scenario) -> Outcome {
             }
         }
         out.trace.push(format!("A': nested {:?} started by the holder's own child was refused with a lock error", k));
+    }
+    if sc.stray_connection {
+        use std::io::Write;
+        if let Ok(mut c) = std::net::TcpStream::connect(("127.0.0.1", w.ports.lock)) {
+            let _ = c.write_all(b"GET / HTTP/1.0\r\n\r\n");
+            let _ = c.shutdown(std::net::Shutdown::Both);
+        }
+        out.fault("stray_connection_to_the_lock_port", 1);
+        // give a holder that (wrongly) serves its lock port a moment to react
+        std::thread::sleep(Duration::from_millis(30));
     }
     let s1 = snap(&w, sc.hold_at_child);
     // ---- phase B: contenders started while the holder is past the lock
